@@ -258,6 +258,15 @@ def gen_e2e(rng, quick):
             fs.add("%s%s%d" % (rng.choice("xulv"), rng.choice("ab"), rng.randrange(7)))
         # never drop the same original message and its first retransmission in the quick tier (3 s recovery)
         out.append("e2e " + " ".join(sorted(fs)))
+    # transport write errors through the real runner.sendBody / Dispatch / handlers: the k-th write attempt of a side fails
+    for d, n in (("a", 5), ("b", 3)):
+        for k in range(n):
+            out.append("e2e w3500 f%s%d" % (d, k))
+    for _ in range(12 if quick else 60):
+        fs = {"f%s%d" % (rng.choice("ab"), rng.randrange(5))}
+        for _ in range(rng.choice([1, 1, 2])):
+            fs.add("%s%s%d" % (rng.choice("xulv"), rng.choice("ab"), rng.randrange(6)))
+        out.append("e2e w3500 " + " ".join(sorted(fs)))
     if not quick:
         out += ["e2e xa0 xa1", "e2e xb0 xb1", "e2e xa0 xb0 xa1", "e2e xa0 xa1 xa2"]
     return out
@@ -437,6 +446,8 @@ def monitor(case, line):
                             "delivered to the protocol machine a second time" % (i, st, st[1:], toks[i + off - 1], toks[i + off]))
         return None
     if case.startswith("e2e"):
+        if any(t[0] == "f" for t in case.split()[1:]):
+            return None     # a failed transport write may legitimately end the bring-up (the LAC gives up): exact comparison only
         if "lac=T1S1," not in line or "lns=T1S1," not in line or not line.endswith("est=11"):
             return ("the LAC/LNS bring-up over a network with faults %s did not end with exactly one tunnel and one established "
                     "session on each side: %s" % (case.split()[1:], line))
@@ -691,7 +702,9 @@ def distribution(cases, impl):
         if k == "e2e":
             for t in c.split()[1:]:
                 d.setdefault("e2e_faults", {})
-                name = {"x": "drop", "u": "duplicate", "l": "delay", "v": "duplicate+delay"}.get(t[0], t[0])
+                if t[0] == "w":
+                    continue
+                name = {"x": "drop", "u": "duplicate", "l": "delay", "v": "duplicate+delay", "f": "write-error"}.get(t[0], t[0])
                 d["e2e_faults"][name] = d["e2e_faults"].get(name, 0) + 1
             if o and o.endswith("est=11"):
                 d["e2e_established"] = d.get("e2e_established", 0) + 1
